@@ -1,4 +1,5 @@
 import SaVerif.Model.CyUtil
+import SaVerif.Model.Row
 import SaVerif.Props.C54
 /-!
 # C55 — Compiled and pure-Python implementations are interchangeable
@@ -141,5 +142,146 @@ example : AnonMap.run [] [6, 3, 6, 3, 0] = [(0, false), (1, false), (0, true), (
   decide
 example : PrefixMap.run PrefixMap.empty [(1, 0), (2, 0), (1, 0), (3, 1)] = [(0, 1), (0, 2), (0, 1), (1, 1)] := by
   decide
+
+/-! ## Row (engine/_row_cy.py BaseRow + engine/row.py Row): a named tuple over `_data` -/
+section RowThms
+open SaVerif.Row
+
+/-- processors are applied position by position and never change the width -/
+theorem apply_processors_spec (procs : List Proc) (data out : List Val)
+    (h : applyProcs procs data = some out) :
+    out.length = data.length ∧
+    ∀ i (hi : i < out.length) (hp : i < procs.length) (hd : i < data.length),
+      out[i] = procs[i].apply data[i] := by
+  unfold applyProcs at h
+  by_cases hl : (procs.length != data.length) = true
+  · rw [if_pos hl] at h; cases h
+  · rw [if_neg hl] at h
+    cases h
+    have hlen : procs.length = data.length := by simpa using hl
+    refine ⟨by simp [hlen], ?_⟩
+    intro i hi hp hd
+    simp
+
+/-- attribute access and mapping access by key are item access at the key's index; a missing
+    key raises AttributeError / KeyError respectively and nothing else -/
+theorem row_key_access (r : Row) (k : Nat) (hw : r.data.length = r.nkeys) :
+    (k < r.nkeys → r.getattr k = r.getitem k ∧ r.getkey k = r.getitem k) ∧
+    (¬ k < r.nkeys → r.getattr k = .error .attributeError ∧ r.getkey k = .error .keyError) := by
+  constructor
+  · intro hk
+    have hd : k < r.data.length := by omega
+    unfold Row.getattr Row.getkey Row.byKey Row.getitem tupleGet
+    have h0 : ¬ ((k : Int) < 0) := by omega
+    simp only [hk, if_true, h0, if_false, Int.toNat_natCast, List.getElem?_eq_getElem hd]
+    first | exact ⟨rfl, rfl⟩ | trivial | simp
+  · intro hk
+    unfold Row.getattr Row.getkey Row.byKey
+    simp only [hk, if_false]
+    exact ⟨rfl, rfl⟩
+
+/-- pickling round-trips to an equal row (same fields, same data, same hash) -/
+theorem row_pickle_roundtrip (r : Row) :
+    r.pickle = r ∧ r.pickle.hashKey = r.hashKey ∧ r.pickle.eq r.data = true := by
+  refine ⟨rfl, rfl, ?_⟩
+  simp [Row.pickle, Row.eq]
+
+/-- equal rows hash alike -/
+theorem row_eq_hash (r : Row) (o : List Val) (h : r.eq o = true) : r.hashKey = o := by
+  simpa [Row.eq, Row.hashKey] using h
+
+theorem tupleLt_irrefl : ∀ a : List Int, tupleLt a a = false
+  | [] => rfl
+  | x :: xs => by
+    have : ¬ x < x := by omega
+    simp [tupleLt, this, tupleLt_irrefl xs]
+
+theorem tupleLt_asymm : ∀ a b : List Int, tupleLt a b = true → tupleLt b a = false
+  | [], [], h => by simp [tupleLt] at h
+  | [], _ :: _, _ => rfl
+  | _ :: _, [], h => by simp [tupleLt] at h
+  | x :: xs, y :: ys, h => by
+    simp only [tupleLt] at h ⊢
+    by_cases h1 : x < y
+    · have : ¬ y < x := by omega
+      simp [this, h1]
+    · by_cases h2 : y < x
+      · simp [h1, h2] at h
+      · simp only [h1, h2, if_false] at h ⊢
+        exact tupleLt_asymm xs ys h
+
+theorem tupleLt_total : ∀ a b : List Int, a ≠ b → tupleLt a b = true ∨ tupleLt b a = true
+  | [], [], h => absurd rfl h
+  | [], _ :: _, _ => Or.inl rfl
+  | _ :: _, [], _ => Or.inr rfl
+  | x :: xs, y :: ys, h => by
+    simp only [tupleLt]
+    by_cases h1 : x < y
+    · exact Or.inl (by simp [h1])
+    · by_cases h2 : y < x
+      · exact Or.inr (by simp [h2])
+      · have hxy : x = y := by omega
+        subst hxy
+        have hne : xs ≠ ys := fun e => h (by rw [e])
+        simp only [h1, if_false]
+        exact tupleLt_total xs ys hne
+
+theorem tupleLt_trans : ∀ a b c : List Int, tupleLt a b = true → tupleLt b c = true → tupleLt a c = true
+  | [], [], _, h, _ => by simp [tupleLt] at h
+  | [], _ :: _, [], _, h => by simp [tupleLt] at h
+  | [], _ :: _, _ :: _, _, _ => rfl
+  | _ :: _, [], _, h, _ => by simp [tupleLt] at h
+  | _ :: _, _ :: _, [], _, h => by simp [tupleLt] at h
+  | x :: xs, y :: ys, z :: zs, h1, h2 => by
+    simp only [tupleLt] at h1 h2 ⊢
+    by_cases a1 : x < y
+    · by_cases b1 : y < z
+      · have : x < z := by omega
+        simp [this]
+      · by_cases b2 : z < y
+        · simp [b1, b2] at h2
+        · have : x < z := by omega
+          simp [this]
+    · by_cases a2 : y < x
+      · simp [a1, a2] at h1
+      · simp only [a1, a2, if_false] at h1
+        have hxy : x = y := by omega
+        subst hxy
+        by_cases b1 : x < z
+        · simp [b1]
+        · by_cases b2 : z < x
+          · simp [b1, b2] at h2
+          · simp only [b1, b2, if_false] at h2 ⊢
+            exact tupleLt_trans xs ys zs h1 h2
+
+/-- **row_ordering_is_tuple_ordering**: `<`, `<=`, `>`, `>=`, `==` of a Row against a tuple (or
+    another Row's tuple) are the lexicographic strict total order on `_data`: exactly one of
+    `<`, `==`, `>` holds, `<=`/`>=` are their unions, and `<` is transitive -/
+theorem row_ordering_is_tuple_ordering (r : Row) (o : List Val) :
+    (r.eq o = true ↔ r.data = o) ∧
+    (r.lt o = true → r.gt o = false ∧ r.eq o = false) ∧
+    (r.eq o = false → r.lt o = true ∨ r.gt o = true) ∧
+    (r.le o = (r.lt o || r.eq o)) ∧ (r.ge o = (r.gt o || r.eq o)) ∧
+    (∀ p : List Val, r.lt o = true → tupleLt o p = true → r.lt p = true) := by
+  refine ⟨by simp [Row.eq], ?_, ?_, rfl, rfl, ?_⟩
+  · intro h
+    refine ⟨tupleLt_asymm _ _ h, ?_⟩
+    unfold Row.eq
+    apply Bool.eq_false_iff.2
+    intro he
+    have : r.data = o := by simpa using he
+    unfold Row.lt at h
+    rw [this, tupleLt_irrefl] at h
+    cases h
+  · intro h
+    have : r.data ≠ o := by simpa [Row.eq] using h
+    exact tupleLt_total _ _ this
+  · intro p h1 h2
+    exact tupleLt_trans _ _ _ h1 h2
+
+example : (Row.make 3 (some [.neg, .none, .dbl]) [2, 0, 5]) = .ok ⟨3, [-2, 0, 10]⟩ := rfl
+example : (⟨2, [1, 2]⟩ : Row).lt [1, 3] = true := by decide
+example : (⟨2, [1, 2]⟩ : Row).getattr 5 = .error .attributeError := rfl
+end RowThms
 
 end SaVerif.Props.C55
